@@ -804,7 +804,7 @@ package node
 //@ func (xp xpathImpl) resolveOperator(oper *xpath.Operator, ident string, s *Selection) (bool, error)
 //@   mode int
 //@   property C16 C13
-//@   requires oper != nil && wfS(s) && dyn(s.Path.Meta) == meta.HasDefinitions
+//@   requires oper != nil && wfS(s) && wfSChain(s) && !failed && dyn(s.Path.Meta) == meta.HasDefinitions
 //@   check [unsetIsFalse] result1 == nil && (a == nil || b == nil) ==> !result0
 //@   check [eq] result1 == nil && cmpOK(a, b) && oper.Oper == "=" ==> result0 == (cmpv(a, b) == 0)
 //@   check [ne] result1 == nil && cmpOK(a, b) && oper.Oper == "!=" ==> result0 == (cmpv(a, b) != 0)
